@@ -85,6 +85,11 @@ CHECKS["C12"] = dict(engine="Seal", design="§4 C12",
     note=SEAL_NOTE + " Needs an AAD-honouring wrapper (the harness' own; the repository's test wrapper ignores AAD).",
     technique="TLA+ spec (Seal.tla record section) + exhaustive record matrix and flow replay with stored-byte inspection + TLC trace validation")
 
+CHECKS["C13"] = dict(engine="Faults", design="§4 C13", category="fault_enumeration",
+    text="Faults.tla gives every flow as its sequence of storage operations with per-step fault tolerance (not-found expected / ignored error) and effects; TLC checks fail-closed, success-implies-persisted and token-consumed-before-record for every flow x position x error kind. On the real code the operation count of each of 13 flows is measured on a fault-free run, then the call is re-run once per position x {generic, not-found, cancelled} with exactly that operation failing under a recording/injecting storage; result, hand-out, persistence, token liveness and bystander records are logged and judged by FaultsTrace.tla.",
+    note="Trusted: TLC. Single faults only. Positions come from the real run (not from the spec); the spec's sequences are compared as drift.",
+    technique="TLA+ spec (Faults.tla) + TLC exhaustive over flow x position x kind + exhaustive single-fault injection on the real code + TLC trace validation")
+
 PENDING = {}
 for i in range(1, 21):
     pid = "C%02d" % i
